@@ -39,7 +39,12 @@ def gen_tcase(r, k):
     vars_ = []
     for v in range(nv):
         nc = r.choice([1, 2, 3, 3, 4])
-        vars_.append({"tsf": r.choice([1, 1, 1, 1, 2, 3]), "coeff": [r.choice([1, 1, 2, -1, 3]) for _ in range(nc)]})
+        x = {"tsf": r.choice([1, 1, 1, 1, 2, 3]), "coeff": [r.choice([1, 1, 2, -1, 3]) for _ in range(nc)]}
+        if nc <= 2 and r.random() < 0.3:
+            # polynomial combination (componentExp 2) on unit coefficients: keeps every energy below 2^53 (exact in doubles)
+            x["coeff"] = [r.choice([1, -1]) for _ in range(nc)]
+            x["exp"] = [r.choice([1, 2]) for _ in range(nc)]
+        vars_.append(x)
     biases = []
     own = []
     for v in range(nv):
@@ -102,7 +107,7 @@ def tcase_config(c):
             L += ["  timeStepFactor %d" % x["tsf"]]
         for i, co in enumerate(x["coeff"]):
             atom += 1
-            L += ["  distanceZ {", "    name c%d" % i, "    componentCoeff %d" % co,
+            L += ["  distanceZ {", "    name c%d" % i, "    componentCoeff %d" % co] + (["    componentExp %d" % x["exp"][i]] if x.get("exp") and x["exp"][i] != 1 else []) + [
                   "    main { atomNumbers %d }" % atom, "    ref { dummyAtom (0,0,0) }", "    axis (0,0,1)", "  }"]
         L += ["}"]
     for b, x in enumerate(c["biases"]):
@@ -143,7 +148,7 @@ def tcase_scenario(c, smp):
 def tcase_model_line(c, mode):
     P = ["CASE", mode, str(len(c["vars"]))]
     for x in c["vars"]:
-        P += [str(x["tsf"]), str(len(x["coeff"]))] + [str(q) for q in x["coeff"]]
+        P += [str(x["tsf"]), str(len(x["coeff"]))] + [str(q) for q in x["coeff"]] + [str(q) for q in x.get("exp", [1] * len(x["coeff"]))]
     P += [str(len(c["biases"]))]
     for x in c["biases"]:
         P += [str(x["tsf"]), str(len(x["vars"]))] + [str(v) for v in x["vars"]] + [str(x["k"])] + [str(q) for q in x["centers"]]
@@ -1153,7 +1158,8 @@ def write_gen_footprints(derived, rich=()):
     for c, t, flags, comp, coll, bias in derived:
         if t is None:
             continue
-        vs = coq_list(["mkVar %d %s [] %s" % (x["tsf"], coq_list(["true" if f else "false" for f in flags[v]]), coq_list([coq_z(q) for q in x["coeff"]]))
+        vs = coq_list(["mkVar %d %s [] %s %s" % (x["tsf"], coq_list(["true" if f else "false" for f in flags[v]]), coq_list([coq_z(q) for q in x["coeff"]]),
+                                             coq_list([str(q) for q in x.get("exp", [])]))
                        for v, x in enumerate(c["vars"])])
         bs = coq_list(["mkBias %d %s %s %s" % (x["tsf"], coq_list([str(v) for v in x["vars"]]), coq_z(x["k"]), coq_list([coq_z(q) for q in x["centers"]]))
                        for x in c["biases"]])
@@ -1182,7 +1188,7 @@ def write_gen_footprints(derived, rich=()):
 def foot_model_line(c, t, flags):
     P = ["FOOT", str(t), str(len(c["vars"]))]
     for v, x in enumerate(c["vars"]):
-        P += [str(x["tsf"]), str(len(x["coeff"]))] + [str(int(f)) for f in flags[v]] + [str(q) for q in x["coeff"]]
+        P += [str(x["tsf"]), str(len(x["coeff"]))] + [str(int(f)) for f in flags[v]] + [str(q) for q in x["coeff"]] + [str(q) for q in x.get("exp", [1] * len(x["coeff"]))]
     P += [str(len(c["biases"]))]
     for x in c["biases"]:
         P += [str(x["tsf"]), str(len(x["vars"]))] + [str(v) for v in x["vars"]] + [str(x["k"])] + [str(q) for q in x["centers"]]
